@@ -387,7 +387,8 @@ def handle (st : St) (seq : String) (f : List String) : St × List String :=
         let r : GRec := { gid := gid, denom := denom, sf := false, dur := dur, g := newGauge dep total start }
         let st' := { st with gs := st.gs ++ [r], bals := setBal st.bals denom (lookupBal st.bals denom + dep),
                              epochs := insertEpoch st.epochs (newEpoch now dur) }
-        -- first clause on the REAL split of the accepted gauge
+        -- first clause on the REAL split of the accepted gauge (`zero_epochs`: a zero-epoch gauge got accepted again —
+        -- regression of the repaired defect; the model refuses it, so a DIFF accompanies it)
         let mon :=
           if total = 0 then [s!"MON\t{seq}\tzero_epochs\tgauge={gid}"]
           else match sp.splitOn ":" with
